@@ -78,7 +78,8 @@ func GenShapeZoo(idx int) *ir.Request {
 		{Name: "floor", Number: 3, Kind: "int32", Card: "optional"},
 	}}
 	flatNull := &ir.Message{Name: "FlatNullZ", Fields: []*ir.Field{
-		{Name: "id", Number: 1, Kind: "string"},
+		// an example list with two ADJACENT equal entries: the list is published as declared, every time it is read
+		{Name: "id", Number: 1, Kind: "string", Ann: ir.Ann{Examples: []string{"alice", "alice", "bob"}}},
 		{Name: "home", Number: 2, Kind: "message", TypeName: P + "NickLeafZ", Ann: ir.Ann{Flatten: &tr}},
 		{Name: "work", Number: 3, Kind: "message", TypeName: P + "NickLeafZ", Ann: ir.Ann{Flatten: &tr, FlattenPrefix: sp("work_")}},
 	}}
@@ -130,7 +131,18 @@ func GenShapeZoo(idx int) *ir.Request {
 	enumMap := &ir.Message{Name: "PlainEnumMapZ", Fields: []*ir.Field{
 		{Name: "swatches", Number: 1, Kind: "enum", TypeName: P + "SwatchZ", Card: "map", MapKey: "string"},
 		{Name: "title", Number: 2, Kind: "string"}}}
-	f.Messages = []*ir.Message{enumMap, leaf, stamps, textV, imageV, gone, emptyZ, mkEvent("OneofFlatZ", true), mkEvent("OneofNestedZ", false), find, del, nick, flatNull, alias, aliasPut, barZ, pageZ, quotesZ,
+	// a flattened discriminated oneof whose LATER variants repeat a child name of an earlier one (`url` in image and
+	// video) or are of the very same message type (image / poster): each union member declares all of its own children
+	videoV := &ir.Message{Name: "VideoVariantZ", Fields: []*ir.Field{{Name: "url", Number: 1, Kind: "string"}, {Name: "duration", Number: 2, Kind: "int32"}}}
+	shared := &ir.Message{Name: "OneofSharedChildZ",
+		Oneofs: []*ir.Oneof{{Name: "media", HasConfig: true, Discriminator: sp("kind"), Flatten: true}},
+		Fields: []*ir.Field{
+			{Name: "id", Number: 1, Kind: "string"},
+			{Name: "image", Number: 2, Kind: "message", TypeName: P + "ImageVariantZ", Oneof: "media"},
+			{Name: "video", Number: 3, Kind: "message", TypeName: P + "VideoVariantZ", Oneof: "media"},
+			{Name: "poster", Number: 4, Kind: "message", TypeName: P + "ImageVariantZ", Oneof: "media"},
+		}}
+	f.Messages = []*ir.Message{videoV, shared, enumMap, leaf, stamps, textV, imageV, gone, emptyZ, mkEvent("OneofFlatZ", true), mkEvent("OneofNestedZ", false), find, del, nick, flatNull, alias, aliasPut, barZ, pageZ, quotesZ,
 		mkTwo("OneofTwoFlatFirstZ", true), mkTwo("OneofTwoNestedFirstZ", false), flatReq}
 	f.Services = []*ir.Service{{Name: "Zoo", BasePath: "/zoo", Methods: []*ir.Method{
 		{Name: "PutStamps", Input: P + "PlainStamps", Output: P + "PlainStamps", Config: &ir.HTTPConfig{Path: "/stamps", Method: "POST"}},
@@ -147,6 +159,7 @@ func GenShapeZoo(idx int) *ir.Request {
 		// a NON-root unwrap wrapper (the unwrap list plus another field) returned by an RPC directly: its JSON is the plain object
 		{Name: "PutBarsPage", Input: P + "BarsPageZ", Output: P + "BarsPageZ", Config: &ir.HTTPConfig{Path: "/bars-page", Method: "POST"}},
 		{Name: "PutEnumMap", Input: P + "PlainEnumMapZ", Output: P + "PlainEnumMapZ", Config: &ir.HTTPConfig{Path: "/enum-map", Method: "POST"}},
+		{Name: "PutShared", Input: P + "OneofSharedChildZ", Output: P + "OneofSharedChildZ", Config: &ir.HTTPConfig{Path: "/shared", Method: "POST"}},
 		{Name: "PutTwoA", Input: P + "OneofTwoFlatFirstZ", Output: P + "OneofTwoFlatFirstZ", Config: &ir.HTTPConfig{Path: "/two-a", Method: "POST"}},
 		{Name: "PutTwoB", Input: P + "OneofTwoNestedFirstZ", Output: P + "OneofTwoNestedFirstZ", Config: &ir.HTTPConfig{Path: "/two-b", Method: "POST"}},
 	}}}
